@@ -345,6 +345,9 @@ var npScopes = [][]string{nil /* all */, {"eth0"}}
 var npSvcs = []string{"ns/s1", "ns/s2"}
 
 func (o npOp) String() string {
+	if o.Kind == "joinfail" {
+		return "the next multicast group join on eth0 is refused"
+	}
 	if o.Kind == "if1" {
 		return "interface eth1 " + []string{"disappears", "is up with a link-local address", "is up without a link-local address"}[o.Scope]
 	}
@@ -398,6 +401,9 @@ func npSeqExec(res *verifrt.Result, ops []npOp) (key string, ok bool) {
 	a := f.a
 	m := npModel{}
 	has1 := true // eth1 has an NDP responder
+	// degraded[g]: a join of group g on eth0 was refused (fault) and some announced address has needed the group ever since:
+	// the responder said so in its log and is not required to listen for that group until the group is needed anew
+	degraded := map[string]bool{}
 	var rd []string
 	for _, o := range ops {
 		rd = append(rd, o.String())
@@ -405,7 +411,9 @@ func npSeqExec(res *verifrt.Result, ops []npOp) (key string, ok bool) {
 	c := npCase{Part: "seq", Ops: ops, Read: rd}
 	for i, o := range ops {
 		res.Count("transitions", 1)
-		if o.Kind == "if1" {
+		if o.Kind == "joinfail" {
+			f.fakes["eth0"].FailNextJoin()
+		} else if o.Kind == "if1" {
 			f.setIfs(o.Scope != 0, o.Scope == 1)
 			has1 = o.Scope == 1
 		} else if o.Kind == "set" {
@@ -485,13 +493,34 @@ func npSeqExec(res *verifrt.Result, ops []npOp) (key string, ok bool) {
 				wantGroups[npGroup(npIPs[ipi])] = true
 			}
 		}
-		var wg []string
-		for g := range wantGroups {
-			wg = append(wg, g)
+		for _, g := range f.fakes["eth0"].TakeFailedJoins() {
+			degraded[g] = true
 		}
-		sort.Strings(wg)
+		for g := range degraded {
+			if !wantGroups[g] {
+				delete(degraded, g) // nobody needs the group any more: the next address in it must be listened for again
+				f.fakes["eth0"].DropGroupErrorsFor(g)
+			}
+		}
 		for _, intf := range present {
-			got := f.fakes[intf].Groups()
+			var wg []string
+			for g := range wantGroups {
+				if !(intf == "eth0" && degraded[g]) {
+					wg = append(wg, g)
+				}
+			}
+			sort.Strings(wg)
+			var got []string
+			for _, g := range f.fakes[intf].Groups() {
+				if !(intf == "eth0" && degraded[g]) {
+					got = append(got, g)
+				}
+			}
+			if intf == "eth0" {
+				for g := range degraded {
+					f.fakes[intf].DropGroupErrorsFor(g)
+				}
+			}
 			if strings.Join(got, ",") != strings.Join(wg, ",") {
 				kind := "joined although no announced address needs the group"
 				if len(got) < len(wg) {
@@ -528,7 +557,11 @@ func npSeqExec(res *verifrt.Result, ops []npOp) (key string, ok bool) {
 		}
 	}
 	res.Outcome(fmt.Sprintf("services=%d", len(m)))
-	return fmt.Sprintf("%s|%v|%s|%s|%s", a.VerifDump(), has1, strings.Join(f.fakes["eth0"].Groups(), ","), a.VerifNDPGroups(200), a.VerifNDPGroups(201)), true
+	faultArmed, faultUsed := f.fakes["eth0"].FailJoins > 0, false
+	for _, o := range ops {
+		faultUsed = faultUsed || o.Kind == "joinfail"
+	}
+	return fmt.Sprintf("%s|%v|%s|%s|%s|%v|%v|%v", a.VerifDump(), has1, strings.Join(f.fakes["eth0"].Groups(), ","), a.VerifNDPGroups(200), a.VerifNDPGroups(201), faultArmed, faultUsed, degraded), true
 }
 
 func TestVerif_C13ndppkt(t *testing.T) {
@@ -638,7 +671,14 @@ func TestVerif_C13ndppkt(t *testing.T) {
 			fix = false
 			continue
 		}
-		for _, op := range alphabet {
+		faulted := false
+		for _, o := range h {
+			faulted = faulted || o.Kind == "joinfail"
+		}
+		for _, op := range append(append([]npOp{}, alphabet...), npOp{Kind: "joinfail"}) {
+			if op.Kind == "joinfail" && faulted {
+				continue // one fault per history
+			}
 			nh := append(append([]npOp{}, h...), op)
 			key, ok := npSeqExec(res, nh)
 			if ok && !seen[key] {
